@@ -663,12 +663,18 @@ class Blockwise(ArrayExpr):
                     return None
                 else:
                     arg_slices = []
-                    for dim_idx in arg_ind:
+                    for arg_axis, dim_idx in enumerate(arg_ind):
                         try:
                             out_pos = out_ind.index(dim_idx)
-                            arg_slices.append(slice_index[out_pos])
                         except ValueError:
                             arg_slices.append(slice(None))
+                            continue
+                        if arg.shape[arg_axis] == 1 and self.shape[out_pos] != 1:
+                            # A length-1 axis broadcast against the output
+                            # axis: every output position reads it whole
+                            arg_slices.append(slice(None))
+                        else:
+                            arg_slices.append(slice_index[out_pos])
 
                     sliced_arg = new_collection(arg)[tuple(arg_slices)]
                     new_args.extend([sliced_arg.expr, arg_ind])
